@@ -1087,6 +1087,7 @@ func genC09Srv(r *rand.Rand, udp bool, boundary int, thorough bool) c09SrvCase {
 	upBudget, downBudget := budget, budget
 	leCase := r.Intn(3) == 0 // a case that prefers low-entropy segments
 	leMode := 1 + r.Intn(4)
+	lePad := r.Intn(2) // "stable for a given sender host": one polarity per case
 
 	dataSeg := func(maxN int) c09SrvSeg {
 		sg := c09SrvSeg{T: "data", P1: c09SrvGenPad(r), P2: c09SrvGenPad(r), Frag: []int{0, 0, 0, 1, 255}[r.Intn(5)]}
@@ -1099,7 +1100,7 @@ func genC09Srv(r *rand.Rand, udp bool, boundary int, thorough bool) c09SrvCase {
 			if r.Intn(3) == 0 {
 				sg.LERot = []int{r.Intn(16), 16 * (1 + r.Intn(15))}[r.Intn(2)]
 			}
-			sg.LEPad = r.Intn(2)
+			sg.LEPad = lePad
 		}
 		if udp {
 			// sizes that fit one datagram, paddings in the room that is left
@@ -1264,14 +1265,14 @@ func genC09Srv(r *rand.Rand, udp bool, boundary int, thorough bool) c09SrvCase {
 		k.Sessions = []c09SrvSession{{ServerCloses: false, ClosePad: 255, Rounds: []c09SrvRound{{ClientWrites: []int{0}, MaxRead: 100000, Segs: []c09SrvSeg{
 			{T: "open", N: 0, P2: 0},
 			{T: "data", N: 32768, P1: 0, P2: 255, LEMode: 4, LERot: 15, LEPad: 0},
-			{T: "data", N: 32768, P1: 255, P2: 0, LEMode: 2, LERot: 16, LEPad: 1},
+			{T: "data", N: 32768, P1: 255, P2: 0, LEMode: 2, LERot: 16, LEPad: 0},
 			{T: "data", N: 32768, P1: 1, P2: 1, LEMode: 3, LERot: 0, LEPad: 0},
 		}}}}}
 	case boundary == 1 && udp:
 		k.MTU = 1500
 		lim := 1500 - 28
 		full := func(mode int, p1 int) c09SrvSeg {
-			sg := c09SrvSeg{T: "data", LEMode: mode, LERot: []int{0, 1, 16, 240, 15}[mode], LEPad: mode % 2, P1: p1}
+			sg := c09SrvSeg{T: "data", LEMode: mode, LERot: []int{0, 1, 16, 240, 15}[mode], LEPad: 1, P1: p1}
 			for n := 1; wire.UDPRoom(lim, n, uint8(mode)) >= p1; n++ {
 				sg.N = n
 			}
